@@ -78,6 +78,35 @@ Theorem C20_model_meets_spec : forall c evs, holdsb c (model_trace (xinit c) evs
 Proof. exact model_meets_spec. Qed.
 Print Assumptions C20_model_meets_spec.
 
+(* A send call (SendKeepalive / SendStagedPackets) that reaches a peer only after Peer.Stop has returned — made by a
+   caller that had looked the peer up while it was running — takes nothing, stages nothing, parks nothing: counts,
+   staged queues, autodraining queues and garbage are what they were, whatever happened before (peer still configured,
+   removed, device closed). *)
+Theorem C20_late_send_neutral : forall c evs j,
+  let x := xreached c evs in
+  let x1 := xreached c (evs ++ [ELateSend j]) in
+  xoutstanding x1 = xoutstanding x /\ resting (s_peers (x_s x1)) = resting (s_peers (x_s x)) /\
+  lsum (x_lost x1) = lsum (x_lost x) /\ x_garbage x1 = x_garbage x.
+Proof. exact late_send_neutral. Qed.
+Print Assumptions C20_late_send_neutral.
+
+(* ... and the life cycle Up, Down, late send call, removal and / or Close, collection ends at zero *)
+Theorem C20_late_send_then_close_zero : forall c evs j evs1 evs2,
+  xoutstanding (xreached c (evs ++ ELateSend j :: evs1 ++ EClose :: evs2 ++ [EGC])) = vzero.
+Proof. exact late_send_then_close_zero. Qed.
+Print Assumptions C20_late_send_then_close_zero.
+
+(* late send calls after Down, after removal and after Close; a straggler flushed by a restart (the peer has a
+   persistent keepalive: Up stages one keepalive for it, Down flushes it) *)
+Example C20_late_send :
+  let c := {| c_tun := 1; c_bind := 1; c_nrecv := 2 |} in
+  map (fun x => (buf (o_counts (snd x)), outC (o_counts (snd x)), outE (o_counts (snd x))))
+      (model_trace (xinit c)
+         [EAddPeer 1 true; EUp; EDown; ELateSend 1; EStraggle 1 0 2; EUp; EDown; ERemovePeer 1; ELateSend 1; EClose;
+          ELateSend 1; EGC])
+  = [(1,0,1); (4,1,2); (1,0,1); (1,0,1); (3,1,3); (4,1,2); (1,0,1); (1,0,1); (1,0,1); (0,0,0); (0,0,0); (0,0,0)].
+Proof. vm_compute. reflexivity. Qed.
+
 (* Non-vacuity: a run that stages packets (for a peer without session), overflows nothing, exercises the counter limit
    with out-of-order re-staging, drop branches in both directions, down/up, removal and close. *)
 Example C20_nonvacuous :
